@@ -405,7 +405,7 @@ func (o Obs) coq() string {
 	case "Err":
 		return "Out (OErr " + o.Err + ")"
 	case "Tokens":
-		return fmt.Sprintf("Out (OTokens (mkTResp %s %s %s %s %s 0 0 %s %s))", cN(o.At), cN(o.Rt), cB(o.Idt), cS(o.Scope), cB(o.Dpop), cList(o.Res, cS), cList(o.Aud, cS))
+		return fmt.Sprintf("Out (OTokens (mkTResp %s %s %s %s %s %s %s %s %s))", cN(o.At), cN(o.Rt), cB(o.Idt), cS(o.Scope), cB(o.Dpop), cN(o.Jkt), cN(o.X5t), cList(o.Res, cS), cList(o.Aud, cS))
 	case "Par":
 		return "Out (OPar " + cN(o.H) + ")"
 	case "Ciba":
